@@ -391,7 +391,7 @@ def build_tree(w):
     for d in ("t", "t/sub", "t/sub/deep", "t2", "t/.git"):
         os.makedirs(os.path.join(w, d), exist_ok=True)
     files = {"t/a.txt": b"hello\nworld\n", "t/b.TXT": b"x", "t/sub/c.rs": b"fn main() {}\n", "t/sub/deep/d": b"",
-             "t/.hidden": b"h", "t/my file.txt": b"m", "t/sub/a b c": b"abc", "t2/my file.txt": b"mm", "t2/e.txt": b"12345", "t2/tot": b"tt", "t/.gitignore": b"*.rs\n", "t/sub/x.zip": b"PK\x05\x06" + b"\0" * 18}
+             "t/.hidden": b"h", "t/my file.txt": b"m", "t/ÀÉÎ日本.txt": b"u", "t/sub/a b c": b"abc", "t2/my file.txt": b"mm", "t2/e.txt": b"12345", "t2/tot": b"tt", "t/.gitignore": b"*.rs\n", "t/sub/x.zip": b"PK\x05\x06" + b"\0" * 18}
     for p, c in files.items():
         with open(os.path.join(w, p), "wb") as f:
             f.write(c)
